@@ -10,6 +10,23 @@ def H(name, tier="quick", **kw):
 PROPS = {}
 HOOK_COMMITS = ["7a26697"]
 NOT_APPLICABLE = {
+    "C02": "acceptance is decided by pass 1/pass 2 over a Vec<Stmt> with HashMap<String,_> and BTreeMap: symbolic execution of SymbolTable::new on a 5-statement all-concrete AST (stack array, S-hash/S-upper stubs) did not finish in 600 s / 11 GB (DESIGN.md section 9); there is no public kernel below it",
+    "C03": "needs the logos lexer + parser on symbolic text (3 symbolic bytes: symex out of memory, section 1); the token-level hook was not sufficient to carry the property (section 5b)",
+    "C04": "needs parse_ast / the lexer loop on arbitrary strings: symbolic execution runs out of memory for 3 symbolic bytes (DESIGN.md section 1)",
+    "C11": "multi-step executions of the OS routines (13+ steps per character; one symbolic step costs 13 M SAT variables / 8 min): out of reach within the caps (DESIGN.md section 5)",
+    "C12": "compares whole program runs under two flag settings, incl. the OS exception messages (~400 steps each): out of reach (DESIGN.md section 5); single-step entry into the handlers is decided under C08",
+    "C13": "run/step_over/step_out loop over single steps; only the one-step core is decided (C08). Multi-step equivalence needs >= 2 symbolic steps per harness (2 x 13 M SAT variables): not attempted within the time available",
+    "C17": "ObjectFile is a BTreeMap<u16, Vec<_>> + HashMap<String,_>: building a 1-block object and inserting one block (all keys concrete) did not finish symbolic execution in 300-600 s (B-tree node code, DESIGN.md section 9)",
+    "C18": "text format: line splitting, str::parse, escape_default/unescaper over Strings plus the BTreeMap/HashMap containers of C17: out of reach (DESIGN.md sections 5, 9)",
+    "C19": "deserializers build BTreeMap/HashMap<String,_> (see C17); 8 symbolic bytes after the magic: still in symex at 620 s / 6.5 GB (DESIGN.md section 9)",
+    "C20": "ObjectFile::link merges BTreeMaps and HashMap<String,_>: two 1-block files with concrete origins did not finish symbolic execution in 300-600 s (DESIGN.md section 9)",
+    "C21": "needs pass 1 (SymbolTable::new) and ObjectFile::new/link/load: pass 1 on a 5-statement concrete AST did not finish in 600 s (DESIGN.md section 9)",
+    "C22": "DebugSymbols::link extends a BTreeMap line map and re-indexes the concatenated source text: out of reach (see C17, C25 notes)",
+    "C23": "SymbolTable queries are HashMap<String,_> lookups behind to_uppercase: a 2-label table with 4 concrete query spellings timed out in symex at 900 s (DESIGN.md section 9). (Native observation only, not decided by this technique: get_label_source does not upper-case its argument.)",
+    "C24": "the line map is a BTreeMap built by pass 1 over the AST with a SourceInfo: out of reach (see C02, C17)",
+    "C29": "copy_obj_block slices the 256 KB memory object: symbolic origin -> out of memory at 41 GB; concrete origins with a 12-word window -> symex did not finish in 600 s (memcpy / chunk_by on the heap block); load_obj_file additionally iterates a BTreeMap; Simulator::new needs the parser on os.asm",
+    "C30": "reset() rebuilds the machine through Simulator::new (65536-word fill, parser + assembler on os.asm, 6-insert trap table); not attempted after the container probes (DESIGN.md section 9)",
+    "C36": "printing is core::fmt, re-parsing is the logos lexer on the printed (symbolic) text: out of reach (DESIGN.md section 5b)",
     "C31": "determinism of whole seeded runs is a 2-safety property over ChaCha12 (StdRng) and a 65536-iteration fill loop; no bound small enough to encode keeps the property's content (DESIGN.md section 6)",
 }
 
@@ -101,13 +118,14 @@ PROPS["PROBE"] = dict(level="model_checking", claim="", note="", jobs=3,
 PROPS["C34"] = dict(
     level="model_checking", jobs=3,
     claim="(a) one poll_interrupt from an arbitrary timer state (remaining time, range bounds and inclusiveness over full u32, enabled flag, priority) behaves as the countdown contract says; (b) over 10 consecutive polls with ranges 1 <= lo <= hi <= 3 (and exact counts) every gap between consecutive interrupts lies in the range, the first interrupt comes within max+1 polls of enabling/reset and the timer keeps firing; (c) a disabled timer never fires and keeps its countdown.",
-    note="S-timer: the private TimerDevice::try_generate_time (rand::Rng::random_range over ChaCha12) is replaced by 'any value inside the configured range'. Seed determinism ('same seed gives the same sequence') and ranges containing 0 are outside the claim; the interrupt vector is not observable at device level (checked through C08's interrupt class).",
+    note="S-rng: only the generator's block output <StdRng as RngCore>::next_u32 is replaced by an arbitrary u32 (plus a zeroed generator for from_seed, whose seeding executes cpuid inline asm); TimerDevice::try_generate_time and rand's real range sampler (Canon's method) are part of the encoding, so 'the sample lies in the range' is derived, not assumed. Seed determinism ('same seed gives the same sequence') and ranges containing 0 are outside the claim; the interrupt vector is not observable at device level (checked through C08's interrupt class).",
     design_ref="DESIGN.md section 5 (C34)",
     bounds="(a) one poll, full 32-bit width; (b) 10 polls, 1 <= lo <= hi <= 3; (c) 4 polls; unwind 14",
     outside="seed determinism; ranges containing 0; empty ranges; gaps for hi > 3 (covered inductively by (a))",
-    assumptions=["S-timer stub (contract of rand::Rng::random_range)", "rand/ChaCha12 trusted"],
+    assumptions=["S-rng: ChaCha12 block output arbitrary; S-seed: zeroed generator state", "one_poll: range width < 2^8 (quick) / 2^16 (thorough): the sampler multiplies a random 32-bit word by the width"],
     harnesses=[
-        H("c34_one_poll", stubbing=True, encodes=["TimerDevice::poll_interrupt", "TimerDevice::reset_remaining", "TimerDevice::new", "TimerDevice::set_range", "SampleRange::new", "Interrupt::vectored", "Interrupt::priority"], bound="one poll, u32 full width"),
+        H("c34_one_poll", stubbing=True, encodes=["TimerDevice::poll_interrupt", "TimerDevice::reset_remaining", "TimerDevice::new", "TimerDevice::set_range", "SampleRange::new", "Interrupt::vectored", "Interrupt::priority"], bound="one poll; lo, hi, remaining time any u32 with hi - lo < 256"),
+        H("c34_one_poll_w16", tier="thorough", stubbing=True, timeout=3000, encodes=["as c34_one_poll"], bound="one poll; hi - lo < 65536"),
         H("c34_gaps", stubbing=True, encodes=["TimerDevice::poll_interrupt", "TimerDevice::set_exact", "TimerDevice::io_reset"], bound="10 polls, 1<=lo<=hi<=3"),
         H("c34_disabled", stubbing=True, encodes=["TimerDevice::poll_interrupt", "TimerDevice::io_read", "TimerDevice::io_write"], bound="4 polls"),
     ],
@@ -147,14 +165,15 @@ PROPS["C09"] = dict(
     harnesses=_kfam("c09_", ["all"], ["virt_mem", "virt_alu", "virt_sys", "real_mem", "real_alu", "real_sys", "iofetch"], cover_tags=["c09"]),
 )
 PROPS["C14"] = dict(
-    level="model_checking", jobs=3,
+    level="model_checking", jobs=3, heavy_jobs=2,
     claim="One step_in with strict = true from an arbitrary state (incl. <= 2 alloca blocks): either it fails with a Strict* error, or result kind, registers, PC, PSR, saved SP, prefetch flag, instruction count, frame depth, every memory cell and the ordered device calls equal the NON-strict ISA model; and on a machine whose registers, saved SP and every touched memory cell are fully initialised no Strict* error is reported.",
     note="The non-strict model is tied to the non-strict implementation by C08. Stubs as in C08.",
     design_ref="DESIGN.md section 3 (C14)",
     bounds="one step; unwind 10; alloca list of exactly 2 sorted disjoint blocks with symbolic bounds",
     outside="observer contents under strict mode (the property lists registers, PC, PSR, memory, device effects, instruction counts)",
     assumptions=_K_ASSUME,
-    harnesses=_kfam("c14_", ["same_all", "init_all"], ["same_alu", "same_mem", "same_sys", "same_irq", "init_alu", "init_mem", "init_sys", "init_irq"], cover_tags=["c14"]),
+    harnesses=_kfam("c14_", ["same_all"], ["same_alu", "same_mem", "same_sys", "same_irq"], cover_tags=["c14"]) +
+              _kfam("c14_", ["init_all"], ["init_alu", "init_mem", "init_sys", "init_irq"], cover_tags=["c14i"]),
 )
 PROPS["C16"] = dict(
     level="model_checking", jobs=3,
@@ -245,4 +264,25 @@ PROPS["C10"] = dict(
         H("c10_arbitration", stubbing=True, encodes=["<DeviceHandler as ExternalDevice>::poll_interrupt", "Interrupt::{vectored,external,priority}", "SimDevice::poll_interrupt"], bound="3 devices, any requests"),
         H("c10_irq_entry", module="c10::k", cover_tags=["mem", "calls", "depth"], stubbing=True, kani_args=_K_ARGS, encodes=_K_ENC, heavy=True, timeout=1800, bound="one step with a pending interrupt, everything else symbolic"),
     ],
+)
+
+PROPS["C01"] = dict(
+    level="model_checking", jobs=1,
+    claim="Kernel layer: for every AsmInstr variant (all 27 label-free shapes: every opcode and the aliases RET, NOP, GETC, OUT, PUTC, PUTS, IN, PUTSP, HALT) with symbolic registers, numeric operands over their full field ranges and a symbolic location counter, pass 2's per-statement translation (into_sim_instr + encode) yields the machine instruction and the 16-bit word the LC-3 bit-field table prescribes.",
+    note="NOT covered: statement placement, label -> address maps, label operands, .fill/.stringz/.blkw words, 'no other address is defined'. Those run pass 1 / pass 2 over a Vec<Stmt> with HashMap<String,_> and BTreeMap, whose symbolic execution does not finish within the caps even for 5 concrete statements (probes in DESIGN.md section 9). The claim is therefore 'each instruction statement's word', not the whole property.",
+    design_ref="DESIGN.md section 5 (C01)",
+    bounds="one instruction statement; operands at full field width; location counter any u16; unwind 7",
+    outside="labels, directives, layout, multi-block programs, debug symbols",
+    assumptions=["S-hash, S-rand, S-fmt, S-upper (label arm infeasible without label operands)", "spec::instr as oracle"],
+    harnesses=[H("c01_instr_words", stubbing=True, timeout=1200, encodes=["AsmInstr::into_sim_instr", "replace_pc_offset (numeric arm)", "SimInstr::encode", "join_bits", "SymbolTable::new(&[])"], bound="27 instruction shapes, symbolic operands")],
+)
+PROPS["C26"] = dict(
+    level="model_checking", jobs=1,
+    claim="Span-list level: every way the assembler and linker construct the span list of an AsmErr - AsmErr::new with [] (how link reports overlapping blocks), one span, 2- and 3-element arrays, Vecs of 0..=3 spans (labels outside a block), Extend - yields a list for which first() and iter() do not panic, iter() yields exactly the given spans and first() is the first of them (symbolic span bounds).",
+    note="The errors are built exactly as the call sites in asm.rs build them, but assemble()/link() themselves are not executed to the error (their HashMap<String,_>/BTreeMap code does not finish symbolic execution, DESIGN.md section 9). 'Every span lies within the source' and 'label errors cover a spelling of the label' are therefore NOT covered.",
+    design_ref="DESIGN.md section 5 (C26)",
+    bounds="span lists of 0..=3 spans with symbolic bounds; unwind 6",
+    outside="which spans pass 1 / pass 2 / link put into an error",
+    assumptions=["Kani/CBMC/CaDiCaL"],
+    harnesses=[H("c26_span_list_constructors", stubbing=True, encodes=["err::ErrSpan::{first,iter,extend}", "From<Span>/<[Span;N]>/<&[Span]>/<Vec<Span>> for ErrSpan", "asm::AsmErr::new"], bound="0..=3 spans")],
 )
